@@ -465,6 +465,98 @@ def _jsonable(x):
     return repr(x)
 
 
+ENV_VARIANTS = ("debug-logging", "worker-thread", "tz-new-york", "tz-tokyo", "cwd-elsewhere")
+
+
+def env_sweep(ctx, name: str, fn, cases, variants=ENV_VARIANTS, describe=repr, max_findings: int = 3):
+    """Environment dimension shared by all properties: `fn(case)` (a canonical, comparable result of the
+    implementation on `case`; exceptions are mapped to ('EXC', class name)) must give the same value
+      - with DEBUG logging enabled for the library (diagnostic code paths run; handlers swallow the records),
+      - in a worker thread instead of the main thread,
+      - under other time zones (TZ + time.tzset),
+      - with another current working directory,
+    as in the environment the check normally runs in.  A difference is a finding `environment-dependent:<name>:<variant>`
+    with the case as replay.  Returns the number of differences."""
+    import logging
+    import tempfile
+    import threading
+
+    def safe(case):
+        try:
+            return fn(case)
+        except Exception as e:  # noqa
+            return ("EXC", type(e).__name__)
+
+    cases = list(cases)
+    base = [safe(c) for c in cases]
+    # a case whose result is not even stable in the baseline environment is not an environment finding
+    again = [safe(c) for c in cases]
+    stable = [i for i in range(len(cases)) if base[i] == again[i]]
+    diffs = 0
+    for v in variants:
+        got = {}
+        if v == "debug-logging":
+            root = logging.getLogger()
+            lib = logging.getLogger("sharepoint2text")
+            saved = (logging.root.manager.disable, root.level, lib.level, list(root.handlers))
+            logging.disable(logging.NOTSET)
+            root.handlers[:] = [logging.NullHandler()]
+            root.setLevel(logging.DEBUG)
+            lib.setLevel(logging.DEBUG)
+            try:
+                for i in stable:
+                    got[i] = safe(cases[i])
+            finally:
+                root.handlers[:] = saved[3]
+                root.setLevel(saved[1])
+                lib.setLevel(saved[2])
+                logging.disable(saved[0])
+        elif v == "worker-thread":
+            def work():
+                for i in stable:
+                    got[i] = safe(cases[i])
+            t = threading.Thread(target=work, daemon=True)
+            t.start()
+            t.join(timeout=600)
+        elif v.startswith("tz-"):
+            tz = {"tz-new-york": "EST5EDT,M3.2.0,M11.1.0", "tz-tokyo": "JST-9", "tz-berlin": "CET-1CEST,M3.5.0,M10.5.0/3"}[v]
+            old = os.environ.get("TZ")
+            os.environ["TZ"] = tz
+            time.tzset()
+            try:
+                for i in stable:
+                    got[i] = safe(cases[i])
+            finally:
+                if old is None:
+                    os.environ.pop("TZ", None)
+                else:
+                    os.environ["TZ"] = old
+                time.tzset()
+        elif v == "cwd-elsewhere":
+            old = os.getcwd()
+            with tempfile.TemporaryDirectory(dir="/var/tmp") as td:
+                os.chdir(td)
+                try:
+                    for i in stable:
+                        got[i] = safe(cases[i])
+                finally:
+                    os.chdir(old)
+        else:
+            continue
+        n_v = 0
+        for i in stable:
+            ctx.case((name, v, i), True, kind=f"env:{v}")
+            if i in got and got[i] != base[i]:
+                diffs += 1
+                n_v += 1
+                if n_v <= max_findings:
+                    ctx.finding(f"environment-dependent:{name}:{v}",
+                                f"{name}: the result for {describe(cases[i])[:200]} differs under '{v}': {str(got[i])[:200]} instead of "
+                                f"{str(base[i])[:200]}", {"case": cases[i], "variant": v, "baseline": base[i], "got": got[i]})
+    ctx.extra.setdefault("env_sweeps", {})[name] = {"cases": len(cases), "stable": len(stable), "variants": list(variants), "differences": diffs}
+    return diffs
+
+
 def replay_bytes(x):
     """Inverse of _jsonable for bytes values stored in a replay file (None if only a prefix was kept)."""
     if isinstance(x, dict) and "_hex" in x:
